@@ -7,7 +7,7 @@ def jobs(tier):
     return [
         dict(name='subset', harness=H, entry='main_c14', defines=dict(MODE=1), timeout=900, require_tags={'end': 1}),
         dict(name='split-union', harness=H, entry='main_c14', defines=dict(MODE=2), timeout=900,
-             require_tags={'end': 1, 'rejoined': 1}),
+             require_tags={'end': 1, 'rejoined': 1, 'individuals-permuted': 1, 'pedigree': 1}),
     ]
 
 
